@@ -329,6 +329,117 @@ class Program:
                 self.globals.setdefault(g['q'], g)
             for e in d['enums']:
                 self.enums.setdefault(e['q'], e)
+        self._pin_names()
+
+    # ---- pinned names -----------------------------------------------------------------------------------------------
+    # Rules name parameters and locals as the pinned tree spells them.  So that a pure rename (a behaviour-preserving edit) does
+    # not disturb any rule, every function's parameters and locals are mapped BY POSITION onto the names recorded for that
+    # function in props/pinned_names.json (frozen table, generated once from the pinned tree by tools/pinned_names.py); lambdas,
+    # whose exported names derive from the variable they initialise, are re-keyed accordingly.  When a function's number of
+    # parameters or locals differs from the table (its structure changed) its names are left as they are in the source.
+    _PIN_TABLE = None
+
+    @staticmethod
+    def pin_key(q, fn):
+        f_ = fn.file.replace('\\', '/')
+        for mark in ('/src/', '/include/'):
+            if mark in f_:
+                f_ = mark[1:] + f_.rsplit(mark, 1)[1]
+                break
+        return '%s|%d|%s' % (q, len(fn.params), f_)
+
+    @staticmethod
+    def local_names(fn):
+        """[(decl id, name)] of the locals of fn in declaration order (structured bindings included)."""
+        pd = {p['d'] for p in fn.params}
+        out = []
+        for i in fn.walk():
+            nd = fn.nodes[i]
+            if nd['k'] == 'VarDecl' and nd.get('d') not in pd:
+                if nd.get('n'):
+                    out.append((nd['d'], nd['n']))
+                for b in nd.get('bindings') or []:
+                    out.append((b['d'], b['n']))
+        return out
+
+    def _pin_names(self):
+        if Program._PIN_TABLE is None:
+            path = os.path.join(build.VERIF, 'props', 'pinned_names.json')
+            Program._PIN_TABLE = json.load(open(path)) if os.path.exists(path) else {}
+        table = Program._PIN_TABLE
+        if not table or os.environ.get('VERIF_NO_PIN'):
+            return
+        ren = {}            # unit -> {decl id: pinned name}
+        qmap = {}           # exported lambda name -> pinned lambda name
+        for f in sorted(self.fns, key=lambda f_: f_.q.count('::$')):
+            newq = f.q
+            for old, new in sorted(qmap.items(), key=lambda kv: -len(kv[0])):
+                if newq == old or newq.startswith(old + '::'):
+                    newq = new + newq[len(old):]
+                    break
+            ent = table.get(Program.pin_key(newq, f))
+            r = ren.setdefault(f.unit, {})
+            if ent is not None and not ent.get('ambiguous'):
+                if len(ent['params']) == len(f.params):
+                    for p_, want in zip(f.params, ent['params']):
+                        if p_.get('n'):
+                            r[p_['d']] = want
+                loc = Program.local_names(f)
+                if len(loc) == len(ent['locals']):
+                    for (d_, _n), want in zip(loc, ent['locals']):
+                        r[d_] = want
+            # lambdas initialising a (possibly renamed) local are exported as <function>::$<local>
+            for i in f.walk():
+                nd = f.nodes[i]
+                if nd['k'] == 'VarDecl' and nd.get('init') is not None and nd['init'] >= 0 and nd.get('n'):
+                    ini = f.strip(nd['init'])
+                    if f.nodes[ini]['k'] == 'LambdaExpr' and f.nodes[ini].get('fn'):
+                        oldq = f.nodes[ini]['fn']
+                        want = newq + '::$' + r.get(nd['d'], nd['n'])
+                        if oldq.rsplit('::$', 1)[-1] == nd['n'] and oldq != want:
+                            qmap[oldq] = want
+            if newq != f.q:
+                qmap[f.q] = newq
+        changed = False
+        for f in self.fns:
+            r = ren.get(f.unit, {})
+            for p_ in f.params:
+                if p_.get('d') in r and p_.get('n') != r[p_['d']]:
+                    p_['n'] = r[p_['d']]
+                    changed = True
+            for nd in f.nodes:
+                d_ = nd.get('d')
+                if d_ in r and nd['k'] in ('VarDecl', 'DeclRefExpr', 'CXXCatchStmt') and nd.get('n') is not None and not nd.get('g') and nd.get('dk') not in ('Function', 'CXXMethod', 'EnumConstant', 'Field'):
+                    if nd['n'] != r[d_]:
+                        nd['n'] = r[d_]
+                        changed = True
+                for b in nd.get('bindings') or []:
+                    if b.get('d') in r:
+                        b['n'] = r[b['d']]
+                for c_ in nd.get('caps') or []:
+                    if isinstance(c_, dict) and c_.get('d') in r:
+                        c_['n'] = r[c_['d']]
+        if qmap:
+            def rq(x):
+                if not isinstance(x, str):
+                    return x
+                for old, new in sorted(qmap.items(), key=lambda kv: -len(kv[0])):
+                    if x == old or x.startswith(old + '::'):
+                        return new + x[len(old):]
+                return x
+            for f in self.fns:
+                f.q = rq(f.q)
+                f.d['q'] = f.q
+                if f.parent_fn:
+                    f.parent_fn = rq(f.parent_fn)
+                for nd in f.nodes:
+                    for fld in ('fn', 'callee', 'q'):
+                        if fld in nd:
+                            nd[fld] = rq(nd[fld])
+            self.by_q = {}
+            for f in self.fns:
+                self.by_q.setdefault(f.q, []).append(f)
+        self.pinned_renames = sum(len(v) for v in ren.values()) if changed or qmap else 0
 
     def fn(self, q, nparams=None, unit=None, optional=False):
         """The unique function with this qualified name (AnalysisBroken if the anchor vanished)."""
